@@ -347,7 +347,7 @@ class Machine:
             s.by_last.setdefault(n.split('::')[-1], []).append(n)
             if n.endswith('::drop') and len(f.params) == 1 and f.params[0][1].startswith('&mut '):
                 s.drop_impls.setdefault(type_head(f.params[0][1]), []).append(n)
-        s._resolve_cache = {}
+        s._resolve_cache = {}; s._dyn_cache = {}
         s._sat_cache = {}
         s.solver_timeout_ms = 20000        # a query that does not finish is `unknown` = inconclusive, never a pass
         s.overflow_mode = 'panic'          # 'panic' (dev profile) | 'wrap' (release profile)
@@ -766,9 +766,57 @@ class Machine:
             return s.apply_outcomes(outs, th.name)
         cc = th.stack[-1].fn.crate if th.stack and th.stack[-1].kind == 'mir' else None
         fn = s.local_fn(callee, cc)
+        if fn is None: fn = s.dyn_fn(st, callee, args)
+        if fn is None: fn = s.shim_fn(callee)
         if fn is None: raise Unmodelled('call ' + callee)
         s.push_mir(st, th, fn, args)
         return None
+
+    def dyn_fn(s, st, callee, args):
+        """value-directed dispatch of a trait method called on a generic parameter (<I as Iterator>::next inside generic code):
+        the impl whose self type is the type of the receiver value"""
+        m = re.match(r'^<(.+) as (.+?)>::(\w+)(::<.*>)?$', callee)
+        if not m or not args: return None
+        v = args[0]
+        for _ in range(4):
+            if isinstance(v, Ref):
+                try: v = s.deref(st, v)
+                except Exception: return None
+            else: break
+        if not isinstance(v, Agg) or v.ty.startswith('{'): return None
+        key = (m.group(3), v.ty)
+        if key in s._dyn_cache: return s._dyn_cache[key]
+        c = [n for n in s.by_last.get(m.group(3), []) if '<impl at' in n and s.fns[n].params
+             and type_head(s.fns[n].params[0][1]) == v.ty]
+        r = c[0] if len(c) == 1 else None
+        s._dyn_cache[key] = r
+        return r
+
+    _SHIM_PREFIX = {'Iterator': 'vsi_', 'DoubleEndedIterator': 'vsi_', 'Extend': 'vsi_extend_', 'Option': 'vso_', 'Result': 'vsr_', 'bool': 'vsb_'}
+
+    def shim_fn(s, callee):
+        """std combinators without a hand-written model run the plain-Rust body of the same name from the shim crate (/verif/shim)"""
+        m = re.match(r'^<(.+) as (.+?)>::(\w+)(::<(.*)>)?$', callee)
+        if m:
+            tr = type_head(m.group(2)); meth = m.group(3); gen = m.group(5) or ''
+            pre = s._SHIM_PREFIX.get(tr)
+            if pre is None: return None
+            if tr == 'Extend': meth = {'Vec': 'vec', 'VecDeque': 'vecdeque'}.get(type_head(m.group(1)), '?')
+            elif meth == 'collect':
+                h = type_head(split_top(gen, ',')[0]) if gen else '?'
+                inner = re.match(r'^(?:std::\w+::)*(Result|Option)<\s*(?:std::\w+::)*Vec<', gen.strip())
+                meth = 'collect_' + ({'Vec': 'vec', 'VecDeque': 'vecdeque'}.get(h) or ({'Result': 'result_vec', 'Option': 'option_vec'}[inner.group(1)] if inner else '?'))
+            elif meth in ('sum', 'max', 'min'):
+                meth = meth + '_usize' if re.search(r'usize', callee) else '?'
+        else:
+            flat = callee
+            for _ in range(8): flat = re.sub(r'<[^<>]*>', '', flat)
+            segs = [x for x in flat.split('::') if x]
+            if len(segs) < 2: return None
+            pre = s._SHIM_PREFIX.get(segs[-2]); meth = segs[-1]
+            if pre is None or segs[-2] in ('Iterator', 'DoubleEndedIterator', 'Extend'): return None
+        c = [n for n in s.by_last.get(pre + meth, []) if s.fns[n].crate == 'vstd']
+        return c[0] if len(c) == 1 else None
 
     def apply_outcomes(s, outs, tid):
         res = []
@@ -940,6 +988,7 @@ class Machine:
         if k == 'ident': return s.deliver(st, th, rv)
         if k == 'wrap': return s.deliver(st, th, mk_enum(data[0], data[1], [rv]))
         if k == 'const': return s.deliver(st, th, data[0])
+        if k == 'not': return s.deliver(st, th, b_not(rv))
         if k == 'panic': return s.start_panic(st, th, data[0], origin=data[1])
         if k == 'filter':
             outs = []
@@ -1024,6 +1073,7 @@ class Machine:
             last = segs[-1]; tyname = segs[-2] if len(segs) >= 2 else None
         cands = list(s.by_last.get(last, []))
         if not cands: return None
+        all_cands = list(cands)
         # a path that starts with a crate name resolves inside that crate
         crates = {s.fns[c].crate for c in cands}
         if len(crates) > 1:
@@ -1046,6 +1096,9 @@ class Machine:
             txt = (f.params[0][1] if f.params else '') + ' -> ' + f.ret
             return tyname is not None and re.search(r'(?<![\w])' + re.escape(tyname) + r'(?![\w])', txt) is not None
         c2 = [c for c in cands if mentions(s.fns[c])]
+        if not c2 and len(all_cands) > len(cands):
+            # the caller's own crate has no impl for this self type: an impl of another crate (deadpool core's blanket impls) applies
+            c2 = [c for c in all_cands if mentions(s.fns[c])]
         if len(c2) > 1:
             # the self type's module path (managed::config::PoolConfig) selects the impl's module
             if mq: mod = re.sub(r'<.*$', '', mq.group(1).strip().lstrip('&')).rsplit('::', 1)[0] if '::' in mq.group(1) else None
